@@ -628,6 +628,27 @@ fn run_op(op: i64, a: &[i64]) -> Result<Vec<i64>, Trap> {
                     None => vec![-1],
                 }
             }
+            58 => {
+                // a[3]: 0 = CFF Index1 (u16 count), 1 = CFF2 Index2 (u32 count); well-formed INDEX with one-byte objects
+                let (index, count, off_size, cff2) = (a[0] as u64 as usize, a[1] as usize, a[2] as usize, a[3] != 0);
+                let mut b = vec![];
+                if cff2 {
+                    be32(&mut b, count as u32);
+                } else {
+                    be16(&mut b, count as u16);
+                }
+                b.push(off_size as u8);
+                for k in 0..=count {
+                    b.extend_from_slice(&((k + 1) as u32).to_be_bytes()[4 - off_size..]);
+                }
+                b.extend(std::iter::repeat(11u8).take(count + 1));
+                let ok = if cff2 {
+                    read_fonts::tables::postscript::Index2::read(FontData::new(&b)).unwrap().get(index).is_ok()
+                } else {
+                    read_fonts::tables::postscript::Index1::read(FontData::new(&b)).unwrap().get(index).is_ok()
+                };
+                vec![ok as i64]
+            }
             40 => {
                 use read_fonts::tables::glyf::PointCoord;
                 vec![<i32 as PointCoord>::midpoint(i(0), i(1)) as i64]
@@ -1037,6 +1058,28 @@ fn correspondence(st: &mut Stats, cw: &mut CaseWriter, rng: &mut Rng, thorough: 
     }
     for v in [vec![0xFFFFFFFFi64, 0xFFFF0000, 20], vec![0xFFFFFFFF, 1, 20], vec![14, 6, 20]] {
         c.emit(57, v);
+    }
+    // CFF / CFF2 INDEX object lookup at the boundary indices (the model is format independent: args[3] is not passed to it)
+    for cff2 in [0i64, 1] {
+        for count in [1i64, 2, 5, 200] {
+            for off_size in [1i64, 2, 3, 4] {
+                if off_size == 1 && count > 100 {
+                    continue;
+                }
+                for index in [0i64, 1, count - 1, count, count + 1, 107, -1, -2, i64::MAX, i64::MIN] {
+                    let res = run_op(58, &[index, count, off_size, cff2]);
+                    // usize::MAX etc. are passed to the model as unsigned 64-bit values
+                    let ix = index as u64 as i128;
+                    c.st.evaluations += 1;
+                    c.st.count("op58");
+                    let resv = res.as_ref().map(|v| v.clone()).unwrap_or_default();
+                    if let Err(t) = &res {
+                        c.kernel_traps.entry(format!("{}:{}", t.loc, t.msg)).or_insert_with(|| json!({"op": 58, "args": [index, count, off_size, cff2], "site": t.loc, "message": t.msg}));
+                    }
+                    c.cw.push(format!("(58, {}, {})", czlist([ix, count as i128, off_size as i128]), czlist(resv.iter().map(|v| *v as i128))));
+                }
+            }
+        }
     }
     // += / -= of the fixed types
     for op in [33i64, 34] {
@@ -1644,7 +1687,9 @@ struct Mutation {
 }
 
 fn gen_mutation(rng: &mut Rng, fonts: &[(&'static str, Vec<u8>)]) -> Mutation {
-    let fi = rng.below(fonts.len() as u64) as usize;
+    // one case in seven goes to a glyph-keyed IFT base (patch application is the deepest path and needs the most tries)
+    let gk: Vec<usize> = fonts.iter().enumerate().filter(|(_, f)| f.0.contains("glyph_keyed")).map(|(i, _)| i).collect();
+    let fi = if !gk.is_empty() && rng.chance(1, 7) { *rng.pick(&gk) } else { rng.below(fonts.len() as u64) as usize };
     let b = &fonts[fi].1;
     let dir = table_dir(b);
     let mut edits = vec![];
@@ -1706,6 +1751,21 @@ fn gen_mutation(rng: &mut Rng, fonts: &[(&'static str, Vec<u8>)]) -> Mutation {
                 let v: u32 = *rng.pick(&[0u32, 1, 2, 0xFFFF, 0xFFFFFFFF, 0x7FFF, 0x8000]);
                 let bytes = if long { v.to_be_bytes().to_vec() } else { (v as u16).to_be_bytes().to_vec() };
                 edits.push((format!("loca+{} (entry {})", k * w, k), off + k * w, bytes));
+            }
+        }
+        if let Some((at, osz, count)) = charstrings_index_pos(b) {
+            // structural damage to the CharStrings INDEX offsets: first > second, dips, equal runs, first != 1, last < previous
+            if (1..=4).contains(&osz) {
+                for _ in 0..rng.range(1, 2) {
+                    let k = if rng.chance(1, 3) { 0 } else if rng.chance(1, 6) { count } else { rng.range(0, 8.min(count as i64)) as usize };
+                    let cur = |k: usize| -> u32 { let mut v = 0u32; for i in 0..osz { v = (v << 8) | b[at + k * osz + i] as u32; } v };
+                    let prev = if k > 0 { cur(k - 1) } else { 1 };
+                    let next = if k < count { cur(k + 1) } else { prev };
+                    let v: u32 = *rng.pick(&[0u32, 1, 2, prev, prev.wrapping_sub(1), next, next.wrapping_add(1), next.wrapping_add(40), 0xFFFF, 0xFFFFFF, 0xFFFFFFFF, cur(k).wrapping_add(1)]);
+                    if at + (k + 1) * osz <= b.len() {
+                        edits.push((format!("CharStrings INDEX offset[{}] (absolute file offset {})", k, at + k * osz), at + k * osz, v.to_be_bytes()[4 - osz..].to_vec()));
+                    }
+                }
             }
         }
         if rng.chance(1, 3) {
@@ -1782,7 +1842,7 @@ impl skrifa::color::ColorPainter for NopPainter {
 
 const API_NAMES: &[&str] = &[
     "metrics", "glyph_metrics", "charmap", "draw_unhinted", "draw_hinted_interpreter", "draw_autohint", "color_paint",
-    "names_attrs", "klippa_subset", "ift_select", "draw_harfbuzz_style", "bitmap_tables", "ift_apply", "bitmap_strikes", "sparse_bit_set", "layout_parse_anywhere", "svg_and_misc_lookups",
+    "names_attrs", "klippa_subset", "ift_select", "draw_harfbuzz_style", "bitmap_tables", "ift_apply", "bitmap_strikes", "sparse_bit_set", "layout_parse_anywhere", "svg_and_misc_lookups", "postscript_index",
 ];
 
 /// Runs API number `api` on the font bytes; all randomness from (sel).
@@ -1800,6 +1860,26 @@ fn run_api(bytes: &[u8], api: usize, sel: u64) -> Result<(), Trap> {
                 }
                 if maxv == u32::MAX && bias == 0 {
                     let _ = read_fonts::collections::IntSet::<u32>::from_sparse_bit_set(&bytes[8..]);
+                }
+            }
+            return;
+        }
+        if api == 17 {
+            // not a font: a CFF / CFF2 INDEX blob; object lookups at the boundary indices
+            use read_fonts::tables::postscript::{Index1, Index2};
+            let idx = |count: usize| -> Vec<usize> {
+                vec![0, 1, count.wrapping_sub(1), count, count.wrapping_add(1), usize::MAX - 1, usize::MAX, 107, 1131, 32768, usize::MAX / 2]
+            };
+            if let Ok(ix) = Index1::read(FontData::new(&bytes)) {
+                for i in idx(ix.count() as usize) {
+                    let _ = ix.get_offset(i);
+                    let _ = ix.get(i);
+                }
+            }
+            if let Ok(ix) = Index2::read(FontData::new(&bytes)) {
+                for i in idx(ix.count() as usize) {
+                    let _ = ix.get_offset(i);
+                    let _ = ix.get(i);
                 }
             }
             return;
@@ -1990,9 +2070,28 @@ fn run_api(bytes: &[u8], api: usize, sel: u64) -> Result<(), Trap> {
                     let uris: Vec<String> = g.uris().map(|s| s.to_string()).collect();
                     let mut map = std::collections::HashMap::new();
                     for u in uris {
-                        let glyph_keyed = ng > 8; // only the bigger IFT bases carry the glyph-keyed map
+                        let glyph_keyed = ng > 4; // only the bigger IFT bases (SIMPLE_GLYF has 3 glyphs) carry the glyph-keyed map
                         let k = if glyph_keyed { 2 + rng.below(5) } else if rng.chance(1, 2) { rng.below(2) } else { 2 + rng.below(5) };
-                        let mut pbytes = ift_patch_pool(k as usize);
+                        let mut pbytes = if glyph_keyed && rng.chance(2, 3) {
+                            // a glyph-keyed patch generated for the tables this base actually has, with a random glyph id
+                            // set (so that any run of neighbouring glyphs can be the retained / replaced one)
+                            let mut tags: Vec<[u8; 4]> = vec![];
+                            for t in [b"glyf", b"gvar", b"CFF ", b"CFF2"] {
+                                if font.table_data(skrifa::Tag::new(t)).is_some() && (tags.is_empty() || rng.chance(1, 2)) {
+                                    tags.push(*t);
+                                }
+                            }
+                            let mut gl: Vec<u32> = (0..ng.min(24)).filter(|_| rng.chance(1, 4)).collect();
+                            if gl.is_empty() {
+                                gl.push(rng.below(ng.max(1) as u64) as u32);
+                            }
+                            if rng.chance(1, 8) {
+                                gl.push(ng + rng.range(0, 2) as u32);
+                            }
+                            gen_glyph_keyed_patch(&mut rng, &tags, &gl)
+                        } else {
+                            ift_patch_pool(k as usize)
+                        };
                         for _ in 0..rng.range(0, 3) {
                             if pbytes.len() > 24 {
                                 let w = *rng.pick(&[1usize, 2, 4]);
@@ -2263,6 +2362,67 @@ impl shared_brotli_patch_decoder::SharedBrotliDecoder for LenientDecoder {
     }
 }
 
+/// glyph-keyed patch ("ifgk", compat id 1,2,3,4, uncompressed payload accepted by LenientDecoder)
+fn gen_glyph_keyed_patch(rng: &mut Rng, tags: &[[u8; 4]], gids: &[u32]) -> Vec<u8> {
+    let mut payload = vec![];
+    be32(&mut payload, gids.len() as u32);
+    payload.push(tags.len() as u8);
+    for g in gids {
+        be16(&mut payload, *g as u16);
+    }
+    for t in tags {
+        payload.extend_from_slice(t);
+    }
+    let n = gids.len() * tags.len();
+    let data_start = payload.len() + 4 * (n + 1);
+    let mut off = data_start as u32;
+    let mut datas = vec![];
+    for _ in 0..n {
+        be32(&mut payload, off);
+        let len = rng.range(0, 6) as usize;
+        let d: Vec<u8> = (0..len).map(|_| if rng.chance(1, 2) { 14 } else { rng.next_u32() as u8 }).collect();
+        off += d.len() as u32;
+        datas.push(d);
+    }
+    be32(&mut payload, off);
+    for d in datas {
+        payload.extend(d);
+    }
+    let mut v = vec![];
+    v.extend_from_slice(b"ifgk");
+    be32(&mut v, 0);
+    v.push(0);
+    for k in [1u32, 2, 3, 4] {
+        be32(&mut v, k);
+    }
+    be32(&mut v, payload.len() as u32);
+    v.extend(payload);
+    v
+}
+
+/// (absolute offset of the offsets array, offSize, count) of the CharStrings INDEX of a CFF / CFF2 font
+fn charstrings_index_pos(bytes: &[u8]) -> Option<(usize, usize, usize)> {
+    use read_fonts::tables::postscript::dict::{entries, Entry};
+    let font = FontRef::new(bytes).ok()?;
+    let dir = table_dir(bytes);
+    if let Ok(cff) = font.cff() {
+        let (_, toff, _) = dir.iter().find(|(t, _, _)| t == b"CFF ")?;
+        let top = cff.top_dicts().get(0).ok()?;
+        let cs = entries(top, None).filter_map(|e| e.ok()).find_map(|e| if let Entry::CharstringsOffset(o) = e { Some(o) } else { None })?;
+        let at = toff + cs;
+        let count = u16::from_be_bytes([*bytes.get(at)?, *bytes.get(at + 1)?]) as usize;
+        return Some((at + 3, *bytes.get(at + 2)? as usize, count));
+    }
+    if let Ok(cff2) = font.cff2() {
+        let (_, toff, _) = dir.iter().find(|(t, _, _)| t == b"CFF2")?;
+        let cs = entries(cff2.top_dict_data(), None).filter_map(|e| e.ok()).find_map(|e| if let Entry::CharstringsOffset(o) = e { Some(o) } else { None })?;
+        let at = toff + cs;
+        let count = u32::from_be_bytes([*bytes.get(at)?, *bytes.get(at + 1)?, *bytes.get(at + 2)?, *bytes.get(at + 3)?]) as usize;
+        return Some((at + 5, *bytes.get(at + 4)? as usize, count));
+    }
+    None
+}
+
 fn ift_patch_pool(k: usize) -> Vec<u8> {
     use font_test_data::ift as t;
     let gk = |payload: font_test_data::bebuffer::BeBuffer, compat: bool| -> Vec<u8> {
@@ -2361,14 +2521,32 @@ fn load_fonts() -> Vec<(&'static str, Vec<u8>)> {
         for (name, base) in [
             ("IFT:glyph_keyed_map_on_NOTO_SERIF_DISPLAY_TRIMMED", d::NOTO_SERIF_DISPLAY_TRIMMED),
             ("IFT:glyph_keyed_map_on_HVAR_WITH_TRUNCATED_ADVANCE_INDEX_MAP", d::HVAR_WITH_TRUNCATED_ADVANCE_INDEX_MAP),
+            ("IFT:glyph_keyed_map_on_CANTARELL_VF_TRIMMED", d::CANTARELL_VF_TRIMMED),
         ] {
             let mut tabs: Vec<([u8; 4], Vec<u8>)> = vec![];
             for (tag, off, len) in table_dir(base) {
                 tabs.push((tag, base[off..off + len].to_vec()));
             }
-            let mut map = d::ift::table_keyed_format2();
-            map.write_at("encoding", 3u8); // glyph keyed
-            tabs.push((*b"IFT ", map.as_slice().to_vec()));
+            // CFF / CFF2 bases need the CharStrings INDEX offset in the patch map (field flags bit 0 / bit 1)
+            let cs = charstrings_index_pos(base).and_then(|(at, _, _)| {
+                let dir = table_dir(base);
+                if let Some((_, toff, _)) = dir.iter().find(|(t, _, _)| t == b"CFF ") {
+                    Some((1u8, (at - 3 - toff) as u32))
+                } else {
+                    dir.iter().find(|(t, _, _)| t == b"CFF2").map(|(_, toff, _)| (2u8, (at - 5 - toff) as u32))
+                }
+            });
+            let map_bytes = if let Some((flag, cs_off)) = cs {
+                let mut m = d::ift::format2_with_one_charstrings_offset();
+                m.write_at("field_flags", flag);
+                m.write_at("charstrings_offset", cs_off);
+                m.as_slice().to_vec()
+            } else {
+                let mut map = d::ift::table_keyed_format2();
+                map.write_at("encoding", 3u8); // glyph keyed
+                map.as_slice().to_vec()
+            };
+            tabs.push((*b"IFT ", map_bytes));
             let refs: Vec<(&[u8; 4], Vec<u8>)> = tabs.iter().map(|(t, b)| (t, b.clone())).collect();
             v.push((name, sfnt(&refs)));
         }
@@ -2436,7 +2614,7 @@ fn build_ift_format1(max_entry: u16, max_glyph_entry: u16, recs: &[([u8; 4], u16
 }
 
 /// minimal CFF1 table with two glyphs (.notdef = endchar, glyph 1 = `cs`)
-fn build_cff(cs: &[u8], private: &[u8]) -> Vec<u8> {
+fn build_cff(cs: &[u8], private: &[u8], gsubrs: &[Vec<u8>], lsubrs: &[Vec<u8>]) -> Vec<u8> {
     fn index(items: &[&[u8]]) -> Vec<u8> {
         let mut v = vec![];
         be16(&mut v, items.len() as u16);
@@ -2462,7 +2640,16 @@ fn build_cff(cs: &[u8], private: &[u8]) -> Vec<u8> {
     let header = vec![1u8, 0, 4, 4];
     let name = index(&[b"A"]);
     let strings = index(&[]);
-    let gsubrs = index(&[]);
+    let gsubrs = index(&gsubrs.iter().map(|v| v.as_slice()).collect::<Vec<_>>());
+    // local subrs: Private DICT gets `Subrs` (op 19) = offset from the start of the Private DICT
+    let mut private = private.to_vec();
+    if !lsubrs.is_empty() {
+        let off = private.len() + 6;
+        int5(&mut private, off as i32);
+        private.push(19);
+    }
+    let lsubrs_index = if lsubrs.is_empty() { vec![] } else { index(&lsubrs.iter().map(|v| v.as_slice()).collect::<Vec<_>>()) };
+    let private = &private[..];
     let charstrings = index(&[&[14u8], cs]);
     // top dict: CharStrings (17), Private (18) with 5-byte operands => fixed size 5+1 + 10+1 = 17
     let top_len = 17usize;
@@ -2485,10 +2672,75 @@ fn build_cff(cs: &[u8], private: &[u8]) -> Vec<u8> {
     t.extend(gsubrs);
     t.extend(charstrings);
     t.extend_from_slice(private);
+    t.extend(lsubrs_index);
     t
 }
 
-fn build_cff_font(cs: &[u8], private: &[u8], upem: u16) -> Vec<u8> {
+/// minimal CFF2 table: one font dict, two glyphs (empty, `cs`), global + local subr INDEXes
+fn build_cff2(cs: &[u8], private: &[u8], gsubrs: &[Vec<u8>], lsubrs: &[Vec<u8>]) -> Vec<u8> {
+    fn index2(items: &[&[u8]]) -> Vec<u8> {
+        let mut v = vec![];
+        be32(&mut v, items.len() as u32);
+        if items.is_empty() {
+            return v;
+        }
+        v.push(4);
+        let mut off = 1u32;
+        be32(&mut v, off);
+        for it in items {
+            off += it.len() as u32;
+            be32(&mut v, off);
+        }
+        for it in items {
+            v.extend_from_slice(it);
+        }
+        v
+    }
+    fn int5(v: &mut Vec<u8>, x: i32) {
+        v.push(29);
+        v.extend_from_slice(&x.to_be_bytes());
+    }
+    let gs = index2(&gsubrs.iter().map(|v| v.as_slice()).collect::<Vec<_>>());
+    let charstrings = index2(&[&[], cs]);
+    let mut private = private.to_vec();
+    if !lsubrs.is_empty() {
+        let off = private.len() + 6;
+        int5(&mut private, off as i32);
+        private.push(19);
+    }
+    let ls = if lsubrs.is_empty() { vec![] } else { index2(&lsubrs.iter().map(|v| v.as_slice()).collect::<Vec<_>>()) };
+    // top dict: CharStrings (17), FDArray (12 36): 6 + 7 = 13 bytes
+    let top_len = 13usize;
+    let cs_off = 5 + top_len + gs.len();
+    let fd_dict_len = 11usize; // size offset Private(18)
+    let fda_len = 4 + 1 + 8 + fd_dict_len;
+    let fda_off = cs_off + charstrings.len();
+    let priv_off = fda_off + fda_len;
+    let mut top = vec![];
+    int5(&mut top, cs_off as i32);
+    top.push(17);
+    int5(&mut top, fda_off as i32);
+    top.extend_from_slice(&[12, 36]);
+    assert_eq!(top.len(), top_len);
+    let mut fd = vec![];
+    int5(&mut fd, private.len() as i32);
+    int5(&mut fd, priv_off as i32);
+    fd.push(18);
+    assert_eq!(fd.len(), fd_dict_len);
+    let fda = index2(&[&fd]);
+    assert_eq!(fda.len(), fda_len);
+    let mut t = vec![2u8, 0, 5];
+    be16(&mut t, top_len as u16);
+    t.extend(top);
+    t.extend(gs);
+    t.extend(charstrings);
+    t.extend(fda);
+    t.extend(private);
+    t.extend(ls);
+    t
+}
+
+fn build_cff_font(cs: &[u8], private: &[u8], upem: u16, cff2: bool, gsubrs: &[Vec<u8>], lsubrs: &[Vec<u8>]) -> Vec<u8> {
     let mut head = vec![];
     be32(&mut head, 0x00010000);
     be32(&mut head, 0x00010000);
@@ -2521,13 +2773,13 @@ fn build_cff_font(cs: &[u8], private: &[u8], upem: u16) -> Vec<u8> {
         be16(&mut hmtx, 600);
         bei16(&mut hmtx, 0);
     }
-    let mut f = sfnt(&[(b"head", head), (b"maxp", maxp), (b"hhea", hhea), (b"hmtx", hmtx), (b"CFF ", build_cff(cs, private))]);
+    let mut f = sfnt(&[(b"head", head), (b"maxp", maxp), (b"hhea", hhea), (b"hmtx", hmtx), if cff2 { (b"CFF2", build_cff2(cs, private, gsubrs, lsubrs)) } else { (b"CFF ", build_cff(cs, private, gsubrs, lsubrs)) }]);
     f[0..4].copy_from_slice(b"OTTO");
     f
 }
 
 /// random Type 2 charstring with extreme operands; returns (bytes, text)
-fn gen_charstring(rng: &mut Rng) -> (Vec<u8>, String) {
+fn gen_charstring(rng: &mut Rng, n_gsubrs: i32, n_lsubrs: i32) -> (Vec<u8>, String) {
     let mut cs = vec![];
     let mut txt = String::new();
     let num = |cs: &mut Vec<u8>, txt: &mut String, rng: &mut Rng| {
@@ -2581,8 +2833,24 @@ fn gen_charstring(rng: &mut Rng) -> (Vec<u8>, String) {
     for _ in 0..n {
         let (bytes, name, counts) = ops[rng.below(ops.len() as u64) as usize];
         let c = *rng.pick(counts);
-        for _ in 0..c {
-            num(&mut cs, &mut txt, rng);
+        if name == "callsubr" || name == "callgsubr" {
+            // subroutine numbers at the bias boundaries of every bias class and at the ends of the INDEX
+            let count = if name == "callsubr" { n_lsubrs } else { n_gsubrs };
+            let bias = *rng.pick(&[107i32, 107, 1131, 32768]);
+            let v = *rng.pick(&[-(bias + 2), -(bias + 1), -bias, -bias + 1, count - bias - 1, count - bias, count - bias + 1, 0, i32::MIN, i32::MAX, -32768, 32767]);
+            if v >= -32768 && v <= 32767 {
+                cs.push(28);
+                cs.extend_from_slice(&(v as i16).to_be_bytes());
+                txt.push_str(&format!("{v} "));
+            } else {
+                cs.push(255);
+                cs.extend_from_slice(&v.to_be_bytes());
+                txt.push_str(&format!("{v}/65536 "));
+            }
+        } else {
+            for _ in 0..c {
+                num(&mut cs, &mut txt, rng);
+            }
         }
         cs.extend_from_slice(bytes);
         txt.push_str(name);
@@ -2653,8 +2921,39 @@ fn build_var_tt(rng: &mut Rng) -> (Vec<u8>, serde_json::Value) {
     if !gvar_bytes.is_empty() {
         tabs.push((*b"gvar", gvar_bytes));
     }
+    // cvar: 1..3 tuples, every CVT entry gets an extreme delta in each (accumulated in 16.16 when the interpreter is set up)
+    let ncvt = spec.cvt.len();
+    let mut cvar_desc = vec![];
+    if ncvt > 0 && ncvt <= 64 && rng.chance(2, 3) {
+        let nt = rng.range(1, 3) as usize;
+        let mut headers = vec![];
+        let mut data = vec![];
+        for _ in 0..nt {
+            let peak = *rng.pick(&[0x4000i16, 0x4000, -0x4000, 0x2000]);
+            let mut td = vec![0u8, 0x40 | (ncvt as u8 - 1)];
+            let mut ds = vec![];
+            for _ in 0..ncvt {
+                let d = *rng.pick(&ext);
+                ds.push(d);
+                bei16(&mut td, d);
+            }
+            be16(&mut headers, td.len() as u16);
+            be16(&mut headers, 0x8000 | 0x2000);
+            bei16(&mut headers, peak);
+            data.extend(td);
+            cvar_desc.push(format!("peak {} deltas {:?}", peak as f32 / 16384.0, ds));
+        }
+        let mut cvar = vec![];
+        be16(&mut cvar, 1);
+        be16(&mut cvar, 0);
+        be16(&mut cvar, nt as u16);
+        be16(&mut cvar, 8 + headers.len() as u16);
+        cvar.extend(headers);
+        cvar.extend(data);
+        tabs.push((*b"cvar", cvar));
+    }
     let refs: Vec<(&[u8; 4], Vec<u8>)> = tabs.iter().map(|(t, b)| (t, b.clone())).collect();
-    (sfnt(&refs), json!({"kind": "variable-truetype", "glyph0_points": spec.pts, "unitsPerEm": spec.upem, "component_offset": [spec.comp_off.0, spec.comp_off.1], "advance": spec.advance, "lsb": spec.lsb, "gvar_tuples (glyph 0 then composite glyph 1; x, y, required)": desc, "fvar": "wght 100/400/900"}))
+    (sfnt(&refs), json!({"kind": "variable-truetype", "glyph0_points": spec.pts, "unitsPerEm": spec.upem, "component_offset": [spec.comp_off.0, spec.comp_off.1], "advance": spec.advance, "lsb": spec.lsb, "gvar_tuples (glyph 0 then composite glyph 1; x, y, required)": desc, "cvt": spec.cvt, "cvar_tuples": cvar_desc, "fvar": "wght 100/400/900"}))
 }
 
 /// Packs sparse-bit-set nodes (BFS order) after the header byte. bf = 2 | 4 | 8 | 32.
@@ -2975,6 +3274,31 @@ fn gen_structured(rng: &mut Rng, idx: u64) -> (Vec<u8>, serde_json::Value, Vec<u
                 vec![9],
             )
         }
+        22 => {
+            // a CFF (u16 count) or CFF2 (u32 count) INDEX: intact, or with damaged offsets
+            let cff2 = rng.chance(1, 2);
+            let count = *rng.pick(&[0u32, 1, 2, 3, 5, 300]);
+            let off_size = *rng.pick(&[1u8, 2, 3, 4, 0, 5]);
+            let mut b = vec![];
+            if cff2 {
+                be32(&mut b, count);
+            } else {
+                be16(&mut b, count as u16);
+            }
+            b.push(off_size);
+            let mut off = 1u32;
+            let mut offs = vec![];
+            for k in 0..=count {
+                let v = if rng.chance(1, 12) { *rng.pick(&[0u32, 1, 0xFFFFFFFF, 0xFFFF, off.wrapping_sub(2)]) } else { off };
+                offs.push(v);
+                b.extend_from_slice(&v.to_be_bytes()[4usize.saturating_sub(off_size.min(4) as usize)..]);
+                if k < count {
+                    off += rng.range(0, 3) as u32;
+                }
+            }
+            b.extend(std::iter::repeat(11u8).take(off as usize + 2));
+            (b, json!({"kind": "postscript-index-blob", "format": if cff2 { "CFF2 (u32 count)" } else { "CFF (u16 count)" }, "count": count, "off_size": off_size, "offsets": offs.iter().take(12).collect::<Vec<_>>()}), vec![17])
+        }
         23 | 24 => {
             // the auto-hinter on a synthetic font of one script: standard characters x blue-zone characters, every glyph
             // a random shape of the grammar (stems of width 0 / 1 / huge, stemless diamonds and triangles, degenerate
@@ -3216,7 +3540,18 @@ fn gen_structured(rng: &mut Rng, idx: u64) -> (Vec<u8>, serde_json::Value, Vec<u
             (bytes, desc, vec![1, 3, 4, 5, 10, 0])
         }
         _ => {
-            let (cs, txt) = gen_charstring(rng);
+            // subr INDEXes: empty, small, or just past the 1240 bias step; each subr is a `return` or a short path
+            let mk_subrs = |rng: &mut Rng| -> Vec<Vec<u8>> {
+                let n = *rng.pick(&[0usize, 0, 1, 3, 216, 1240]);
+                (0..n).map(|_| if rng.chance(1, 2) { vec![11u8] } else { vec![139 + 10, 139 + 10, 21, 11] }).collect()
+            };
+            let gsubrs = mk_subrs(rng);
+            let lsubrs = mk_subrs(rng);
+            let cff2 = rng.chance(1, 3);
+            let (mut cs, txt) = gen_charstring(rng, gsubrs.len() as i32, lsubrs.len() as i32);
+            if cff2 {
+                cs.pop(); // no endchar in CFF2
+            }
             // private dict: optional BlueValues / StdHW with extremes so that the CFF hinter has zones
             let mut private = vec![];
             if rng.chance(1, 2) {
@@ -3233,7 +3568,7 @@ fn gen_structured(rng: &mut Rng, idx: u64) -> (Vec<u8>, serde_json::Value, Vec<u
                 private.extend_from_slice(&[0x8b, 20]); // defaultWidthX 0
             }
             let upem = *rng.pick(&[1000u16, 1000, 1, 16, 65535]);
-            (build_cff_font(&cs, &private, upem), json!({"kind": "cff-charstring", "glyph1_charstring": txt, "charstring_hex": cs.iter().map(|b| format!("{:02x}", b)).collect::<String>(), "unitsPerEm": upem, "private_dict_hex": private.iter().map(|b| format!("{:02x}", b)).collect::<String>()}), vec![3, 4, 5, 10, 1])
+            (build_cff_font(&cs, &private, upem, cff2, &gsubrs, &lsubrs), json!({"kind": "cff-charstring", "flavour": if cff2 { "CFF2" } else { "CFF" }, "global_subrs": gsubrs.len(), "local_subrs": lsubrs.len(), "glyph1_charstring": txt, "charstring_hex": cs.iter().map(|b| format!("{:02x}", b)).collect::<String>(), "unitsPerEm": upem, "private_dict_hex": private.iter().map(|b| format!("{:02x}", b)).collect::<String>()}), vec![3, 4, 5, 10, 1])
         }
     }
 }
@@ -3341,6 +3676,9 @@ fn search(seed: u64, thorough: bool, st: &mut Stats, fonts: &[(&'static str, Vec
                         }
                         if only_api.map(|o| o != api as u64).unwrap_or(false) {
                             continue;
+                        }
+                        if api == 14 || api == 17 {
+                            continue; // these two take a raw stream, not a font (structured cases only)
                         }
                         if api == 8 && i % 4 != 0 && only_api.is_none() {
                             continue;
@@ -3726,6 +4064,37 @@ fn entry_point_census() -> serde_json::Value {
 
 fn struct_debug() {
     use incremental_font_transfer::patchmap::{intersecting_patches, SubsetDefinition};
+    // glyph-keyed patch against a CFF base whose first CharStrings offset exceeds the second
+    {
+        use incremental_font_transfer::patch_group::{PatchGroup, UriStatus};
+        let fonts = load_fonts();
+        for (name, bytes) in fonts.iter().filter(|f| f.0.contains("glyph_keyed")) {
+            let mut b = bytes.clone();
+            let pos = charstrings_index_pos(&b);
+            if let Some((at, osz, count)) = pos {
+                let cur = |b: &Vec<u8>, k: usize| -> u32 { let mut v = 0u32; for i in 0..osz { v = (v << 8) | b[at + k * osz + i] as u32; } v };
+                println!("{} charstrings INDEX: count {} offSize {} offsets[0..4] {:?}", name, count, osz, (0..4).map(|k| cur(&b, k)).collect::<Vec<_>>());
+                let v = cur(&b, 1) + 1;
+                b[at..at + osz].copy_from_slice(&v.to_be_bytes()[4 - osz..]);
+            }
+            let font = FontRef::new(&b).unwrap();
+            let tag: [u8; 4] = if font.table_data(skrifa::Tag::new(b"CFF ")).is_some() { *b"CFF " } else if font.table_data(skrifa::Tag::new(b"CFF2")).is_some() { *b"CFF2" } else { *b"glyf" };
+            let mut rng = Rng::new(1);
+            let patch = gen_glyph_keyed_patch(&mut rng, &[tag], &[5]);
+            let r = catch_loc(move || {
+                let font = FontRef::new(&b).unwrap();
+                match PatchGroup::select_next_patches(font, &SubsetDefinition::all()) {
+                    Ok(g) => {
+                        let uris: Vec<String> = g.uris().map(|s| s.to_string()).collect();
+                        let mut map: std::collections::HashMap<String, UriStatus> = uris.iter().map(|u| (u.clone(), UriStatus::Pending(patch.clone()))).collect();
+                        format!("uris {:?} apply {:?}", uris, g.apply_next_patches_with_decoder(&mut map, &LenientDecoder).map(|v| v.len()))
+                    }
+                    Err(e) => format!("select error {e:?}"),
+                }
+            });
+            println!("  {} tag {:?}: {:?}", name, String::from_utf8_lossy(&tag), r.map_err(|t| format!("{} @ {}", t.msg, t.loc)));
+        }
+    }
     // hand-minimised IFT format 1 feature maps for the three patchmap.rs sites
     for (name, max_entry, recs) in [
         ("patchmap.rs:298 index * field_width * 2", 400u16, vec![(*b"dlig", 301u16, 16385u16)]),
@@ -3741,7 +4110,7 @@ fn struct_debug() {
         let r = catch_loc(move || intersecting_patches(&FontRef::new(&bytes).unwrap(), &SubsetDefinition::all()).map(|v| v.len()));
         println!("MINIMAL {} (IFT table {} bytes): {:?}", name, n, r.map_err(|t| format!("{} @ {}", t.msg, t.loc)));
     }
-    for idx in [0u64, 32, 64, 1, 2, 11, 12, 13, 30, 62, 31, 63, 23, 24, 55] {
+    for idx in [0u64, 1, 11, 12, 13, 14, 15, 16, 17, 18, 19, 20, 21, 43, 44, 45, 46, 47, 48, 22, 23, 30, 31] {
         let mut rng = Rng::new(idx);
         let (bytes, desc, _) = gen_structured(&mut rng, idx);
         println!("--- {} len={} {}", idx, bytes.len(), &desc.to_string()[..desc.to_string().len().min(300)]);
